@@ -1,0 +1,53 @@
+//go:build verif
+// +build verif
+
+// Contracts for package seqnum, read only by the verifier in /verif (build tag verif).
+// This file contains no code.
+
+package seqnum
+
+// Serial-number arithmetic over 32-bit sequence numbers; all arithmetic below is modulo
+// 2^32 because the operands are uint32. "w - v" is the forward distance from v to w.
+//
+// ensures = proved here and assumed by callers; claims = proved here only.
+
+//@ func (Value).LessThan props C14
+//@   ensures implies(w - v != 0x80000000, result == (w - v >= 1 && w - v <= 0x7fffffff))
+//@   ensures implies(w - v == 0x80000000, result)
+//@   claims  result == (w - v >= 1 && w - v <= 0x7fffffff)
+
+//@ func (Value).LessThanEq props C14
+//@   ensures implies(w - v != 0x80000000, result == (v == w || (w - v >= 1 && w - v <= 0x7fffffff)))
+//@   ensures implies(w - v == 0x80000000, result)
+
+//@ func (Value).InRange props C14
+//@   ensures result == (v - a < b - a)
+
+//@ func (Value).InWindow props C14
+//@   ensures result == (v - first < Value(size))
+
+//@ func (Value).Add props C14
+//@   ensures result == v + Value(s)
+
+//@ func (Value).Size props C14
+//@   ensures Value(result) == w - v
+//@   ensures v + Value(result) == w
+
+//@ func (*Value).UpdateForward props C14
+//@   ensures *v == old(*v) + Value(s)
+//@   modifies *v
+
+// Two windows [a,a+b) and [x,x+y) share a sequence number iff the start of one lies in
+// the other and that other is not empty (lemma share_closed_form below).
+//@ func Overlap props C14
+//@   ensures implies(b > 0 && y > 0 && uint64(b) + uint64(y) <= 0x80000000,
+//@                   result == ((x - a < Value(b)) || (a - x < Value(y))))
+//@   ensures result == (int32(a - (x + Value(y))) < 0 && int32(x - (a + Value(b))) < 0)
+//@   claims  result == ((x - a < Value(b) && y > 0) || (a - x < Value(y) && b > 0))
+
+//@ lemma share_closed_form props C14
+//@   var a, x, s Value
+//@   var b, y Size
+//@   prove implies(s - a < Value(b) && s - x < Value(y), (x - a < Value(b) && y > 0) || (a - x < Value(y) && b > 0))
+//@   prove implies(x - a < Value(b) && y > 0, x - a < Value(b) && x - x < Value(y))
+//@   prove implies(a - x < Value(y) && b > 0, a - a < Value(b) && a - x < Value(y))
